@@ -29,7 +29,11 @@ func keysReplay(keys []*hello.Key) []map[string]string {
 func checkNotAccepted(t ev.Failer, prop string, keys []*hello.Key, record []byte, what string) string {
 	rp := map[string]any{"keys": keysReplay(keys), "client_stream": hx(record), "expect": "not_accepted", "mutation": what}
 	tr := wire.New(record, io.EOF)
+	snap := keySnapshot(keys)
 	c, err := newConn(context.Background(), tr, echKeys(keys...))
+	if keysChanged(keys, snap) {
+		ev.Violation(t, prop, rp, "NewConn modified the key configs it was given")
+	}
 	if isPanic(err) {
 		return "panic_seen" // C08's business; not an acceptance
 	}
@@ -143,6 +147,8 @@ func TestC02(t *testing.T) {
 		hh := sha256.Sum256(sc.OuterMsg)
 		hk := hx(hh[:6])
 		keys := []*hello.Key{sc.Key}
+		withDebug = rapid.Bool().Draw(t, "with_debug")
+		defer func() { withDebug = false }()
 		// positive control
 		checkAcceptedExact(t, "C02", sc, wire.New(sc.Record, io.EOF), keys)
 		if _, err := hello.ReferenceOpen(sc.Key, sc.OuterMsg); err != nil {
@@ -525,6 +531,8 @@ func TestC02(t *testing.T) {
 			return a
 		})
 		one("sub:aad_other_version", "the AAD used by the client differs in legacy_version", hello.Record(22, sc.RecVer, m4))
+		// after all those connections the same key material still accepts the authentic hello
+		checkAcceptedExact(t, "C02", sc, wire.New(sc.Record, io.EOF), keys)
 		_ = bytes.Equal
 	})
 }
